@@ -1,12 +1,13 @@
 PROP = dict(
     cover_pkgs=["pdu"],
     gen=["layouts"],
-    proof_files=["Properties/C12.v", "Proofs/PduMarshalProofs.v"],
-    model_files=["Model/Pdu.v", "Model/PduRun.v"],
+    proof_files=["Properties/C12.v", "Proofs/PduMarshalProofs.v", "Proofs/PduHazardProofs.v"],
+    model_files=["Model/Pdu.v", "Model/PduRun.v", "Model/PduHazards.v"],
     trusted=["Gen/PduLayouts.v: reflect walk of the command_id registry (hook pdu.VerifTypes, build tag verif), classifying each field as Marshal/unmarshal dispatch it",
              "Go value -> Gallina term printer harness/pdu_common.go"],
     assumptions=["bytes.Buffer, encoding/binary, reflect, sort are Go library code (modelled, tied by the generated cases)",
-                 "the destination io.Writer is only called through bytes.Buffer.WriteTo (one Write call)"],
+                 "the destination io.Writer is modelled as a state (octets held, Write calls, remaining capacity: Model/PduHazards.v wstate); "
+                 "destinations tried: recording writer, *bytes.Buffer and a wrapper already holding octets, a writer that gives up after k octets"],
 )
 GEN = {"layouts": "Gen/PduLayouts.v"}
 ENGINE = {"name": "pdu", "path": "coq/Model/Pdu.v coq/Proofs/Pdu*.v harness/pdu_common.go harness/c01.go harness/c12.go",
@@ -15,8 +16,11 @@ MANIFEST = dict(
     engine="pdu",
     design_ref="DESIGN.md §5 C12",
     technique="Coq proof over all layouts and all value lists (case analysis + induction) + vm_compute correspondence on generated unconstrained values",
-    text="Theorems in coq/Properties/C12.v: for every layout and every value list, the Marshal model never panics; on success the destination "
-         "received exactly one frame whose first four octets state its length; on error it received nothing. The model is tied to the code by "
+    text="Theorems in coq/Properties/C12.v about marshal_io, the Marshal model written with a private buffer, bounds-checked in-place patches that can "
+         "yield Panic and an explicit destination state: for every layout, value list and destination it never panics; on an encoding error the "
+         "destination is unchanged; on success the destination holds what it held followed by exactly one frame whose first four octets state the "
+         "octets written (= returned count); a destination that gives up has a prefix of the frame; a second Marshal of the same pointer has the same outcome. "
+         "marshal_io refines the functional model marshal used by C01 C02 C13. The model is tied to the code by "
          "layouts regenerated from the registry and by evaluating the model inside coqc on every value the implementation marshalled in this run.",
     note="Trusted: Coq kernel + vm_compute; layout dumper and Go->Gallina value printer; Go library code (bytes, binary, reflect, sort). No axioms.",
 )
